@@ -69,12 +69,78 @@ def ro_norm(k):
     return [k[0], json.loads(k[1]) if isinstance(k[1], str) else k[1], k[2], k[3], list(k[4]) if k[4] is not None else None]
 
 
+GEN_OWNED = {"gen_outcome", "gen_values", "gen_end", "gen_pack_outcome", "gen_out"}
+
+
+def block_machine_part(v, univ, cases, n, seed):
+    """code -> spec for GenPacket.tla: sampled behaviours are executed with every observation point installed under the
+    field loop and three generated settings; TLC (Trace_Gen) runs the block-step machine of THAT setting and compares read
+    log, field events, error stack, write log and results directly.  C03 is violated by a case whose execution under the
+    field loop conforms while an execution under generated code does not (the machines themselves are equivalent:
+    Inv_C03_Refine); everything else is drift."""
+    import random
+    from bind import declgen, trace_packet as tp
+    rnd = random.Random(seed + 3)
+    by_d = {}
+    for c in cases:
+        by_d.setdefault(c["d"], []).append(c)
+    per = max(1, n // max(1, len(by_d)))
+    picked = []
+    for d, cs in sorted(by_d.items()):
+        picked.extend(rnd.sample(cs, min(per, len(cs))))
+    gens = [rp.GEN_OFF,
+            {"generate_for_pack": True, "generate_for_unpack": True, "vectorize": True, "annotate": False},
+            {"generate_for_pack": True, "generate_for_unpack": True, "vectorize": False, "annotate": True},
+            {"generate_for_pack": False, "generate_for_unpack": True, "vectorize": True, "annotate": True},
+            {"generate_for_pack": True, "generate_for_unpack": False, "vectorize": True, "annotate": False}]
+    recs = []
+    with declgen.Scratch() as sc:
+        for c in picked:
+            d = univ[c["d"] - 1]
+            for g in gens:
+                rec, extra = tp.record(sc.load(d["prog"], g), d, c["raw"], c["start"], g, c01=False)
+                recs.append(rec)
+    tres, out = tp.judge(recs, module="Trace_Gen")
+    v.add_tlc(tres, "Trace_Gen on %d recorded executions (%d behaviours x field loop + 4 generated settings): read log, events, "
+              "error stack, write log against the block-step machine of the setting" % (len(recs), len(picked)), exhaustive=False)
+    drift = {}
+    for i in range(0, len(recs), len(gens)):
+        names = [out.get(i + k) for k in range(len(gens))]
+        if any(x is None for x in names):
+            raise common.MachineryFailure("Trace_Gen gave no verdict for record %d" % i)
+        base_ok = not (set(names[0]) & GEN_OWNED)
+        for k in range(1, len(gens)):
+            mine = sorted(set(names[k]) & GEN_OWNED)
+            if mine and base_ok:
+                v.violation("C03_Same", "the execution under the field loop conforms to the generic machine, the one under %s does not "
+                            "conform to the block-step machine (%s), and TLC showed the two machines equivalent" % (gens[k], mine),
+                            {"case": pp.small(recs[i + k]), "gen": gens[k], "cu": recs[i + k]["cu"], "cp": recs[i + k]["cp"],
+                             "generic_cu": recs[i]["cu"], "generic_cp": recs[i]["cp"]})
+            for nme in names[k]:
+                if not (nme in GEN_OWNED and base_ok):
+                    drift[nme] = drift.get(nme, 0) + 1
+        for nme in names[0]:
+            drift[nme] = drift.get(nme, 0) + 1
+        v.cov["traces_validated_against_impl"] += len(gens)
+    v.cov["block_machine_records"] = len(recs)
+    if drift:
+        v.cov.setdefault("model_drift_not_owned", {})
+        for k, c in drift.items():
+            v.cov["model_drift_not_owned"][k] = v.cov["model_drift_not_owned"].get(k, 0) + c
+
+
 def run(tier, seed):
     v = common.Verdict("C03", tier, seed)
     common.bind_repo()
     quick = tier == "quick"
     gens = rp.gen_combos()      # gens[0] = everything off
-    res = pp.run_mc(v, "U_C03_Q" if quick else "U_C03", ["Inv_Machine", "Inv_C04_Exact"], lenbonus=0 if quick else 1)
+    # Inv_C03_Refine: the block-step machines of GenPacket.tla (what generated code does) refine the generic machines
+    res = pp.run_mc(v, "U_C03_Q" if quick else "U_C03", ["Inv_Machine", "Inv_C04_Exact", "Inv_C03_Refine"], lenbonus=0 if quick else 1)
+    if not quick:
+        # the same refinement on the other packet universes (control flow, positioning, error stacks, long inputs)
+        for u in ("U_C12", "U_C08", "U_C10_Flat", "U_C04_Lone", "U_C06"):
+            for r in pp.run_mc_waves(v, u, ["Inv_C03_Refine"], label="MC_Packet U=%s Inv_C03_Refine (block-step machines refine the generic ones)" % u, emit=False):
+                pass
     cases = sorted(res.emits, key=lambda c: c["d"])
     chunks = [cases[i:i + 60] for i in range(0, len(cases), 60)]
     ctx = multiprocessing.get_context("fork")
@@ -99,6 +165,7 @@ def run(tier, seed):
         judged = pp.judge_cases(v, res.univ, [], gens, OWNED, "Trace_Packet on %d recorded pairs of settings that disagree" % len(todo),
                                 c01=False, extra_records=[(x["rec"], {"d": x["d"], "gen": x["gen"], "extra": x["extra"]}) for x in todo])
         pp.decide(v, judged, OWNED)
+    block_machine_part(v, res.univ, cases, 1500 if quick else 12000, seed)
     # pack side: all well-typed (and ill-typed) values of the value universes under all 16 settings
     vres = vp.run_mc(v, "U_C02" if not quick else "U_C03V", ["Inv_C02_Layout"])
     nn, mism = rv.replay_all(vres.univ, vres.emits, gens)
